@@ -27,12 +27,21 @@
     is no fsync step in the model and none in _pickle_save. *)
 From Coq Require Import List NArith ZArith Bool Arith Ascii String.
 From MxlBase Require Import ListX.
-From CacheFS Require Import CacheKeys CacheFS CacheFSSpec GenCacheFacts ExpectedFacts CacheKeysProofs CacheFSProofs CacheFSProps.
+From CacheFS Require Import CacheKeys CacheFS CacheFSSpec CacheCodec CacheObject GenCacheFacts ExpectedFacts
+  CacheKeysProofs CacheFSProofs CacheSessionProofs CacheCodecProofs CacheFSProps.
 Import ListNotations.
 
 Theorem C19_facts_pinned : gen_cache_facts = mkCacheFacts SaveTempReplace true true C19_expected_name.
 Proof. vm_compute. reflexivity. Qed.
 Print Assumptions C19_facts_pinned.
+
+(** the Cache dataclass has exactly the fields tmp_dir / name_fn / load_fn / save_fn and no methods, and
+    _load_or_run asks the directory (file.exists()): the object carries NO state from run to run
+    (CoStateless; seeded/C19-5 is another shape); _load_or_run hands save_fn the very path load_fn gets
+    later (SnFinal; seeded/C19-6 hands it a temporary name) *)
+Theorem C19_object_facts_pinned : gen_cache_object = CoStateless /\ gen_save_name = SnFinal.
+Proof. vm_compute. split; reflexivity. Qed.
+Print Assumptions C19_object_facts_pinned.
 
 (** FULL statement: for every list of pairs with pairwise different KEYS the cached run over a fresh
     directory returns the uncached results -- C19_transparent below, for the repaired names.
@@ -71,12 +80,12 @@ Theorem C19_repr_names_injective :
 Proof. exact name_repr_inj. Qed.
 Print Assumptions C19_repr_names_injective.
 
-(** FULL transparency, no guard on the names: once the tree carries the repaired name function
-    (hypothesis 1; C19_facts_pinned decides it together with ExpectedFacts.v), pairwise different
-    keys of the universe suffice *)
+(** FULL transparency, no guard on the names: once the tree carries a repr-based name function
+    (hypothesis 1 -- f"{k!r}.p" or its percent-encoded form; C19_facts_pinned decides it together with
+    ExpectedFacts.v), pairwise different keys of the universe suffice *)
 Theorem C19_transparent :
   forall (V : Type) (keyof : N -> key) (fnv : N -> V) (size : V -> nat),
-    cf_name gen_cache_facts = NameRepr ->
+    cf_name gen_cache_facts = NameRepr \/ cf_name gen_cache_facts = NameReprEsc ->
     forall (pol : V -> nat -> bool) (items : list (N * N)) (p : N) (sh : N -> list ascii -> Z) (salt : N),
       (forall kx, In kx items -> wf_key (keyof (fst kx)) = true) ->
       NoDup (map (fun kx => keyof (fst kx)) items) ->
@@ -106,8 +115,54 @@ Theorem C19_transparent_repaired_names :
     /\ forall sched,
          let st := exec V name fnv size pol SaveTempReplace p items sched (init items fs_empty) in
          all_done st = true -> collect items (s_pcs st) = Some (run_uncached V fnv items).
-Proof. exact (fun V keyof fnv size => transparent_repr V keyof fnv size (mkCacheFacts SaveTempReplace true true NameRepr) eq_refl eq_refl). Qed.
+Proof. exact (fun V keyof fnv size => transparent_repr V keyof fnv size (mkCacheFacts SaveTempReplace true true NameRepr) eq_refl (or_introl eq_refl)). Qed.
 Print Assumptions C19_transparent_repaired_names.
+
+(** ... and for the percent-encoded names of fixes/C19-slash-in-key.diff *)
+Theorem C19_transparent_escaped_names :
+  forall (V : Type) (keyof : N -> key) (fnv : N -> V) (size : V -> nat)
+         (pol : V -> nat -> bool) (items : list (N * N)) (p : N) (sh : N -> list ascii -> Z) (salt : N),
+    (forall kx, In kx items -> wf_key (keyof (fst kx)) = true) ->
+    NoDup (map (fun kx => keyof (fst kx)) items) ->
+    let name := name_id NameReprEsc sh salt keyof in
+    collect items (s_pcs (run_seq V name fnv size pol None SaveTempReplace p items fs_empty))
+      = Some (run_uncached V fnv items)
+    /\ collect items (s_pcs (run_par V name fnv size pol SaveTempReplace p items fs_empty))
+      = Some (run_uncached V fnv items)
+    /\ forall sched,
+         let st := exec V name fnv size pol SaveTempReplace p items sched (init items fs_empty) in
+         all_done st = true -> collect items (s_pcs st) = Some (run_uncached V fnv items).
+Proof. exact (fun V keyof fnv size => transparent_repr V keyof fnv size (mkCacheFacts SaveTempReplace true true NameReprEsc) eq_refl (or_intror eq_refl)). Qed.
+Print Assumptions C19_transparent_escaped_names.
+
+(** the percent-encoded names are injective on the key universe, whatever process computes them ... *)
+Theorem C19_escaped_names_injective :
+  forall (sh1 sh2 : N -> list ascii -> Z) (salt1 salt2 : N) (k1 k2 : key),
+    wf_key k1 = true -> wf_key k2 = true ->
+    name_of NameReprEsc sh1 salt1 k1 = name_of NameReprEsc sh2 salt2 k2 -> k1 = k2.
+Proof. exact name_esc_inj. Qed.
+Print Assumptions C19_escaped_names_injective.
+
+(** ... and EVERY key -- of the universe or not: nothing about repr(k) is used -- gets a name that is a
+    single path component (no "/", not empty, not "." or ".."): the result file lies in the cache directory *)
+Theorem C19_escaped_names_are_components :
+  forall (sh : N -> list ascii -> Z) (salt : N) (k : key),
+    exists l, name_of NameReprEsc sh salt k = Some l /\ is_component l = true.
+Proof. exact name_esc_is_component. Qed.
+Print Assumptions C19_escaped_names_are_components.
+
+(** REGRESSION / the finding C19-slash-in-key while ExpectedFacts.v says NameRepr: the str key "ATP/ADP" is a
+    key of the universe whose name under f"{k!r}.p" is 'ATP/ADP'.p -- not a path component (the file would
+    lie in the sub-directory 'ATP of the cache directory, which nobody creates: save_fn raises
+    FileNotFoundError and the cached run fails where the uncached run returns); its escaped name
+    'ATP%2FADP'.p is one *)
+Theorem C19_slash_names_refuted :
+  exists k l l', wf_key k = true
+    /\ name_of NameRepr no_strhash 0 k = Some l /\ is_component l = false
+    /\ name_of NameReprEsc no_strhash 0 k = Some l' /\ is_component l' = true
+    /\ string_of_list_ascii l = "'ATP/ADP'.p"%string /\ string_of_list_ascii l' = "'ATP%2FADP'.p"%string.
+Proof. exact name_repr_not_component. Qed.
+Print Assumptions C19_slash_names_refuted.
 
 (** REGRESSION (the code as found, f"{k}.p"; = finding C19-name-collision while ExpectedFacts.v says
     NameStr): the int 1 and the str "1" are different keys of the universe, share the file 1.p, and
@@ -185,6 +240,120 @@ Theorem C19_new_interpreter_rerun_hits_disk :
       /\ (all_done st2 = true -> collect items (s_pcs st2) = Some (run_uncached V fnv items)).
 Proof. exact (fun V keyof fnv size => new_interpreter_rerun_hits_disk V keyof fnv size gen_cache_facts C19_facts_pinned). Qed.
 Print Assumptions C19_new_interpreter_rerun_hits_disk.
+
+(** "WITHOUT RECOMPUTING", exactly: at every instant of every interleaving, under every save protocol and
+    flush policy, from any Good directory, the number of fn evaluations made so far never exceeds the number
+    of pairs whose result file was ABSENT when the run started, and a complete run has made exactly that
+    many.  ([missing items f0]: the pairs of the run whose result file is not in f0.) *)
+Theorem C19_calls_are_the_missing_files :
+  forall (V : Type) (name : N -> N) (fnv : N -> V) (size : V -> nat) (pol : V -> nat -> bool) pr
+         (items : list (N * N)) (f0 : fs V) (p : N) (sched : list nat),
+    names_distinct name items -> Good V name fnv size items f0 ->
+    let st := exec V name fnv size pol pr p items sched (init items f0) in
+    N.to_nat (s_calls st) <= length (missing V name items f0)
+    /\ (all_done st = true -> s_calls st = N.of_nat (length (missing V name items f0))).
+Proof. exact calls_bound. Qed.
+Print Assumptions C19_calls_are_the_missing_files.
+
+(** A CACHE OBJECT HAS NO STATE OF ITS OWN: one run of a session.  [all] = the pairs that ever occur in the
+    session (pairwise different file names); the directory is Good for them -- a fresh one, or whatever
+    earlier runs (complete or killed: C19_crash_then_rerun) left.  A complete run over ANY sub-list [items]
+    -- any interleaving, flush policy, process; the model has no other input than the directory [f0] --
+    returns the uncached results, evaluates fn exactly on the pairs whose files were absent, leaves its own
+    files complete, every result file already complete stays so, files of other names are untouched, and
+    the directory is Good for the next run of the session (the statement composes with itself). *)
+Theorem C19_session_run_depends_on_directory_only :
+  forall (V : Type) (name : N -> N) (fnv : N -> V) (size : V -> nat) (pol : V -> nat -> bool)
+         (all items : list (N * N)) (f0 : fs V) (p : N) (sched : list nat),
+    names_distinct name all -> incl items all -> names_distinct name items ->
+    Good V name fnv size all f0 ->
+    let st := exec V name fnv size pol (cf_save gen_cache_facts) p items sched (init items f0) in
+    all_done st = true ->
+    collect items (s_pcs st) = Some (run_uncached V fnv items)
+    /\ s_calls st = N.of_nat (length (missing V name items f0))
+    /\ AllCached V name fnv size items (s_fs st)
+    /\ (forall k x, In (k, x) all -> f0 (Final (name k)) = whole V fnv size x -> s_fs st (Final (name k)) = whole V fnv size x)
+    /\ (forall n, ~ In n (map (fun kx => name (fst kx)) items) -> s_fs st (Final n) = f0 (Final n))
+    /\ Good V name fnv size all (s_fs st).
+Proof. exact (fun V name fnv size => session_step_tree V name fnv size gen_cache_facts C19_facts_pinned). Qed.
+Print Assumptions C19_session_run_depends_on_directory_only.
+
+(** a growing key set: a complete run over A (fresh directory), then a complete run over A ++ B -- same or
+    other process, execution mode, flush policy: the second run evaluates fn exactly |B| times *)
+Theorem C19_growing_key_set :
+  forall (V : Type) (name : N -> N) (fnv : N -> V) (size : V -> nat) (pol1 pol2 : V -> nat -> bool)
+         (A B : list (N * N)) (p1 p2 : N) (sched1 sched2 : list nat),
+    names_distinct name (A ++ B) ->
+    let st1 := exec V name fnv size pol1 (cf_save gen_cache_facts) p1 A sched1 (init A fs_empty) in
+    all_done st1 = true ->
+    let st2 := exec V name fnv size pol2 (cf_save gen_cache_facts) p2 (A ++ B) sched2 (init (A ++ B) (s_fs st1)) in
+    all_done st2 = true ->
+    collect A (s_pcs st1) = Some (run_uncached V fnv A)
+    /\ s_calls st1 = N.of_nat (length A)
+    /\ collect (A ++ B) (s_pcs st2) = Some (run_uncached V fnv (A ++ B))
+    /\ s_calls st2 = N.of_nat (length B).
+Proof. exact (fun V name fnv size => growing_key_set_tree V name fnv size gen_cache_facts C19_facts_pinned). Qed.
+Print Assumptions C19_growing_key_set.
+
+(** REGRESSION (seeded/C19-5): a Cache object that memoises one directory listing (big-step model on file
+    names, CacheObject.v).  From a directory that holds none of the names, a second PARALLEL run with the
+    same object recomputes all of them (the stateless object: none); the session A, A, A ++ B in parallel
+    costs 3, 3, 5 evaluations instead of 3, 0, 2; sequentially the memo is kept up to date (3, 0, 2) *)
+Theorem C19_listing_memo_refuted :
+  (forall names dir, names <> [] -> (forall n, In n names -> mem n dir = false) ->
+     let s0 := mkO dir None in
+     fst (orun CoListingMemo true names (snd (orun CoListingMemo true names s0))) = length names
+     /\ length names <> 0
+     /\ fst (orun CoStateless true names (snd (orun CoStateless true names s0))) = 0)
+  /\ osession CoListingMemo [(true, [1; 2; 3]); (true, [1; 2; 3]); (true, [1; 2; 3; 4; 5])]%N (mkO [] None) = [3; 3; 5]
+  /\ osession CoStateless [(true, [1; 2; 3]); (true, [1; 2; 3]); (true, [1; 2; 3; 4; 5])]%N (mkO [] None) = [3; 0; 2]
+  /\ osession CoListingMemo [(false, [1; 2; 3]); (false, [1; 2; 3]); (false, [1; 2; 3; 4; 5])]%N (mkO [] None) = [3; 0; 2].
+Proof. exact listing_memo_refuted. Qed.
+Print Assumptions C19_listing_memo_refuted.
+
+(** the big-step count of the stateless object IS the count of the small-step model: if [l] lists the
+    result files of the file system [f], the evaluations of a run are its missing pairs *)
+Theorem C19_stateless_object_counts_missing_files :
+  forall (V : Type) (name : N -> N) (f : fs V) (l : list N) (par : bool) (m : option (list N)) (items : list (N * N)),
+    (forall n, mem n l = true <-> f (Final n) <> None) ->
+    fst (orun gen_cache_object par (map (fun kx => name (fst kx)) items) (mkO l m)) = length (missing V name items f).
+Proof. exact orun_calls_agree. Qed.
+Print Assumptions C19_stateless_object_counts_missing_files.
+
+(** CUSTOM (name_fn, save_fn, load_fn) TRIPLES (CacheCodec.v: [enc n v] = what save_fn writes when handed
+    the name n, [decd n b] = what load_fn returns when handed the name n; big-step, parallel=False order).
+    Under the user's contract -- a round trip ON ONE NAME -- and with the name the tree hands to save_fn
+    ([gen_save_name] = the final name): cached = uncached on a fresh directory with one evaluation per key,
+    and the repeated run (any process) returns the same results with NO evaluation *)
+Theorem C19_custom_triple_transparent_and_repeatable :
+  forall (V B : Type) (fnv : N -> V) (name : N -> N) (tmpname : N -> N -> N)
+         (enc : N -> V -> B) (decd : N -> B -> option V),
+    (forall n v, decd n (enc n v) = Some v) ->
+    forall (p1 p2 : N) (items : list (N * N)),
+      NoDup (map (fun kx => name (fst kx)) items) ->
+      let '(res1, c1, d1) := crun V B fnv name tmpname enc decd gen_save_name p1 items cdir_empty in
+      let '(res2, c2, d2) := crun V B fnv name tmpname enc decd gen_save_name p2 items d1 in
+      res1 = Some (run_uncached V fnv items) /\ c1 = length items
+      /\ res2 = Some (run_uncached V fnv items) /\ c2 = 0.
+Proof. exact codec_transparent_and_repeatable. Qed.
+Print Assumptions C19_custom_triple_transparent_and_repeatable.
+
+(** REGRESSION (seeded/C19-6): save_fn handed a temporary name, the file renamed afterwards.  The triple that
+    stamps the name it was handed into the file satisfies the contract on every name; the first caching run
+    returns the right results, the REPEATED run raises; with the final name handed over it repeats from disk *)
+Theorem C19_temp_name_to_save_fn_refuted :
+  (forall n v, stamp_dec n (stamp_enc n v) = Some v)
+  /\ exists (items : list (N * N)),
+       NoDup (map fst items)
+       /\ (forall kind, kind <> SnFinal ->
+            let '(res1, c1, d1) := crun Z (N * Z) Z.of_N (fun k => k) pid_tmpname stamp_enc stamp_dec kind 1 items cdir_empty in
+            let '(res2, c2, d2) := crun Z (N * Z) Z.of_N (fun k => k) pid_tmpname stamp_enc stamp_dec kind 2 items d1 in
+            res1 = Some (run_uncached Z Z.of_N items) /\ res2 = None)
+       /\ (let '(res1, c1, d1) := crun Z (N * Z) Z.of_N (fun k => k) pid_tmpname stamp_enc stamp_dec SnFinal 1 items cdir_empty in
+           let '(res2, c2, d2) := crun Z (N * Z) Z.of_N (fun k => k) pid_tmpname stamp_enc stamp_dec SnFinal 2 items d1 in
+           res1 = Some (run_uncached Z Z.of_N items) /\ res2 = Some (run_uncached Z Z.of_N items) /\ c2 = 0).
+Proof. exact temp_name_to_save_fn_refuted. Qed.
+Print Assumptions C19_temp_name_to_save_fn_refuted.
 
 (** the run is killed after ANY prefix [sched1] of ANY interleaving (before, between and after the
     bytes of every result file, before/after the close and the replace), under ANY flush policy
@@ -376,3 +545,30 @@ Proof.
   - vm_compute. reflexivity.
 Qed.
 Print Assumptions C19_nonvacuous_buffered.
+
+(** non-vacuity of the session statements: A = keys 1, 2 (5-byte results), B = key 3; run A in the pool,
+    A again sequentially, then A ++ B in the pool: 2, 0, 1 evaluations, every run returns the uncached
+    results; the hypotheses of C19_session_run_depends_on_directory_only hold at every stage *)
+Example C19_nonvacuous_session :
+  let A := [(1, 2); (2, 3)]%N in
+  let B := [(3, 4)]%N in
+  let name := (fun k : N => k) in
+  let size := (fun _ : Z => 5) in
+  let st1 := run_par Z name Z.of_N size pol_buffered (cf_save gen_cache_facts) 1 A fs_empty in
+  let st2 := run_seq Z name Z.of_N size pol_through None (cf_save gen_cache_facts) 1 A (s_fs st1) in
+  let st3 := run_par Z name Z.of_N size pol_through (cf_save gen_cache_facts) 1 (A ++ B) (s_fs st2) in
+  names_distinct name (A ++ B) /\ incl A (A ++ B)
+  /\ map (fun st => s_calls st) [st1; st2; st3] = [2; 0; 1]%N
+  /\ length (missing Z name (A ++ B) (s_fs st2)) = 1
+  /\ outcome_of A st2 = Returned [(1%N, 2%Z); (2%N, 3%Z)]
+  /\ outcome_of (A ++ B) st3 = Returned [(1%N, 2%Z); (2%N, 3%Z); (3%N, 4%Z)].
+Proof.
+  cbv zeta. split; [|split; [|split; [|split; [|split]]]].
+  - repeat constructor; cbn; intuition discriminate.
+  - apply incl_appl. apply incl_refl.
+  - vm_compute. reflexivity.
+  - vm_compute. reflexivity.
+  - vm_compute. reflexivity.
+  - vm_compute. reflexivity.
+Qed.
+Print Assumptions C19_nonvacuous_session.
